@@ -195,6 +195,12 @@ def normalise_worker(events):
                 yield {"ev": ev, "t": t, "err": 0, "tot": e["tot"], "chg": e["chg"]}
         elif ev == "Listener":
             yield {"ev": "Listener", "t": t, "kind": e["kind"], "idx": e["idx"], "tot": int(e.get("tot", 0)), "chg": int(e.get("chg", 0))}
+        elif ev == "WaitCall":
+            yield {"ev": "WaitCall", "t": t, "trigger": 1 if e.get("trigger") else 0}
+        elif ev == "TriggerObs":
+            yield {"ev": "TriggerObs", "t": t, "trigger": 1 if e.get("trigger") else 0}
+        elif ev == "WaitRet":
+            yield {"ev": "WaitRet", "t": t, "res": e["res"], "n": int(e.get("n", 0)), "trigger": 1 if e.get("trigger") else 0}
         elif ev == "Final":
             yield {"ev": "Final", "t": t, "wlistener": wl, "rlistener": rl}
         elif ev == "Sleep":
